@@ -12,6 +12,7 @@
 //! alphabet deck      : all C(52,k) k-subsets of the implementation's deck
 //! alphabet deckblank : all k-multisets over the 52 deck cards and the blank word
 //! alphabet deckblank_ordered : all 53^k ordered k-tuples over the 52 cards and blank (use --order 0)
+//! alphabet u16_ordered : all ordered k-tuples of 16-bit values (k = 2: the 2^32 pairs of hand-rank values)
 //! --expect-blank "<line>"     : the constant for cases that hold a blank word, when it differs
 //! alphabet deckblank_invalid : those of them that hold a blank or a repeated card (not k distinct real cards)
 //! order 0 : deck order (ace of spades first) / non-decreasing alphabet index
@@ -94,7 +95,7 @@ pub fn sweep(args: &[String]) {
     // deckblank_invalid: only the multisets that are NOT k distinct real cards (a blank or a repeated card)
     let invalid_only = alphabet == "deckblank_invalid";
     // deckblank_ordered: every ORDERED k-tuple over the 52 cards and blank (53^k), not only the multisets
-    let ordered = alphabet == "deckblank_ordered";
+    let ordered = alphabet == "deckblank_ordered" || alphabet == "u16_ordered";
     // cases holding a blank word may have their own constant
     let expect_blank = arg(args, "--expect-blank").map(str::to_string);
     let order: u32 = arg(args, "--order").map_or(0, |s| s.parse().unwrap());
@@ -107,6 +108,10 @@ pub fn sweep(args: &[String]) {
     let mut alpha: Vec<u32> = POKER_DECK.arr().to_vec();
     if multi {
         alpha.push(0);
+    }
+    if alphabet == "u16_ordered" {
+        // every 16-bit value (for pairs of hand-rank values)
+        alpha = (0..=65535u32).collect();
     }
     let n = alpha.len();
     let bad_total = Arc::new(AtomicU64::new(0));
